@@ -85,6 +85,24 @@ fn pats() -> Vec<Pat> {
             groups: 1,
             inputs: vec![("q", vec![], vec!["q"]), ("aa", vec![vec![Some("aa"), None]], vec!["", ""]), ("aaa-", vec![vec![Some("aaa"), Some("a")]], vec!["", "-"])],
         },
+        // a repeated group whose selected path is only reached after backtracking into an
+        // EARLIER iteration (a, b abandoned; abc taken): $1 is the whole last iteration
+        Pat {
+            text: "(a|b|abc)*d",
+            flags: "",
+            groups: 1,
+            inputs: vec![
+                ("q", vec![], vec!["q"]),
+                ("abcd", vec![vec![Some("abcd"), Some("abc")]], vec!["", ""]),
+                ("xabcd-abcd", vec![vec![Some("abcd"), Some("abc")], vec![Some("abcd"), Some("abc")]], vec!["x", "-", ""]),
+            ],
+        },
+        Pat {
+            text: "(?:(a|b|abc)(-)?)+d",
+            flags: "",
+            groups: 2,
+            inputs: vec![("q", vec![], vec!["q"]), ("abcd", vec![vec![Some("abcd"), Some("abc"), None]], vec!["", ""]), ("a-abcd.", vec![vec![Some("a-abcd"), Some("abc"), Some("-")]], vec!["", "."])],
+        },
         // groups that the compiler folds away still count (and number) as groups
         Pat {
             text: "(a){0}(b)",
@@ -204,11 +222,11 @@ fn pats() -> Vec<Pat> {
     ]
 }
 
-fn count(maxlen: u32) -> u64 {
+pub fn count(maxlen: u32) -> u64 {
     (0..=maxlen).map(|l| (ALPHA.len() as u64).pow(l)).sum()
 }
 
-fn repl_string(mut idx: u64) -> String {
+pub fn repl_string(mut idx: u64) -> String {
     let k = ALPHA.len() as u64;
     let mut len = 0;
     let mut block = 1;
@@ -281,7 +299,7 @@ fn space_for(tier: Tier) -> Space {
 
 /// `$` followed by digit runs that do not fit in 64 bits, or that exceed the group count
 /// by many orders of magnitude.
-const LONG_RUNS: [&str; 10] = [
+pub const LONG_RUNS: [&str; 10] = [
     "$99999999999999999999",
     "$18446744073709551616",
     "$18446744073709551615",
